@@ -40,14 +40,23 @@ OUTSIDERS = {
     "namesake-dep-roots": ["o1/dep/Unused.1.0.dsdl", "o2/dep/sub/E.1.0.dsdl"],
     # the files of these outsiders are EMPTY on disk (zero bytes): even looking at their size must not matter
     "empty-files": ["dep/Empty.1.0.dsdl", "dep/sub/Empty.2.0.dsdl", "dep/D.1.1.dsdl"],
+    # the target tgt/M refers to dep.Missing.1.0, which does not exist: definitions that merely share its short name
+    # and version (in other namespaces / roots) are outsiders - the outcome (an error) must not depend on them
+    "missing-ref-namesake": ["dep/sub/Missing.1.0.dsdl", "dep/x/y/Missing.1.0.dsdl", "o1/other/Missing.1.0.dsdl"],
+    "missing-ref-single-namesake": ["dep/sub/Missing.1.0.dsdl"],
+    "missing-ref-other-root": ["o1/other/Missing.1.0.dsdl"],
 }
+_M = {"tgt/M.1.0.dsdl": "dep.Missing.1.0 m\nMissing.1.0 n\n@sealed\n"}
+EXTRA_TARGETS = {"missing-ref-namesake": _M, "missing-ref-single-namesake": _M, "missing-ref-other-root": _M}
 
 
 class _Tree:
-    def __init__(self, outsiders: typing.List[str], content: str = "@sealed\n") -> None:
+    def __init__(self, outsiders: typing.List[str], content: str = "@sealed\n",
+                 extra: typing.Optional[typing.Dict[str, str]] = None) -> None:
         self.root = model.scratch_dir("c19")
         files = dict(TARGET_ROOT)
         files.update(LOOKUP_ROOT)
+        files.update(extra or {})
         for o in outsiders:
             files[o] = content
         model.write_tree(self.root, files)
@@ -95,14 +104,14 @@ def _run(api: str, tree: _Tree, targets: typing.List[str], prints: typing.List[t
 
 def make_closure(api: str, scenario: str, targets: typing.List[str]):
     outs = OUTSIDERS[scenario]
-    tree = _Tree(outs, "" if scenario == "empty-files" else "@sealed\n")
+    tree = _Tree(outs, "" if scenario == "empty-files" else "@sealed\n", EXTRA_TARGETS.get(scenario))
     # the reference result comes from a tree WITHOUT the outsiders: what is outside the closure cannot matter
-    bare = _Tree([])
+    bare = _Tree([], extra=EXTRA_TARGETS.get(scenario))
     bare.extra_lookups = []
     base_prints = []  # type: typing.List[typing.Any]
     baseline = _strip(_run(api, bare, targets, base_prints), bare.root)
     base_prints = [(_rel(p, bare.root), l, t) for p, l, t in base_prints]
-    assert baseline[0] == "ok", baseline
+    assert baseline[0] == "ok" or scenario in EXTRA_TARGETS, baseline
     opaths = sorted(tree.outsider_paths)
 
     def h(t0: str, t1: str) -> typing.Any:
@@ -144,6 +153,8 @@ def conditions(tier: str, seed: int) -> typing.List[Cond]:
             targets = ["tgt/T.1.0.dsdl"] if api == "read_files" else []
             if scenario == "namesake-roots" and api == "read_files":
                 targets = ["tgt/U.1.0.dsdl"]
+            if scenario.startswith("missing-ref") and api == "read_files":
+                targets = ["tgt/M.1.0.dsdl"]
             out.append(Cond(PROP, "c19.text", make_closure, {"api": api, "scenario": scenario, "targets": targets},
                             {"t0": str, "t1": str}, assumptions=["text of each outsider: any str (unconstrained)"],
                             stubs=["DSDLDefinition.text overridden for outsider paths (returns the symbolic str and "
